@@ -27,7 +27,7 @@ EXIT_OK, EXIT_VIOLATION, EXIT_BROKEN = 0, 1, 2
 
 
 class Unit:
-    def __init__(self, name, harness, repo_units, debug_asserts=True, defines=(), nobody=(), extra_c=(), ubsan=True, cbmc_defines=(), wrap=(), prescreen=False):
+    def __init__(self, name, harness, repo_units, debug_asserts=True, defines=(), nobody=(), extra_c=(), ubsan=True, cbmc_defines=(), wrap=(), prescreen=False, c_defines=()):
         self.name = name
         self.harness = list(harness)            # harness .cpp files (relative to the check dir); they override repo symbols
         self.repo_units = list(repo_units)      # asmjit .cpp files relative to /repo
@@ -38,6 +38,7 @@ class Unit:
         self.ubsan = ubsan
         self.prescreen = prescreen      # large generated families: run every harness natively on random operands first and add the
                                         # ones with a failing assertion to the solver's work list (selection heuristic only)
+        self.c_defines = list(c_defines)         # -D<name> for the generated C and the extra_c files, for goto-cc AND the native xlat twin
         self.cbmc_defines = list(cbmc_defines)   # -D<name> for goto-cc only (e.g. VERIF_DIVC, see include/verif_prelude.h)
         self.wrap = list(wrap)              # libc symbols routed to the harness's verif_<sym> (ld --wrap natively, call renaming in ir2c)
 
@@ -284,11 +285,11 @@ class Check:
         info['ir_lines'] = sum(1 for _ in open(ll)); info['c_lines'] = sum(1 for _ in open(c))
         extra = [self.src_path(e) for e in unit.extra_c]
         gb = os.path.join(wd, 'unit.gb')
-        must(['goto-cc', '-D__CPROVER__'] + ['-D' + d for d in unit.cbmc_defines] + ['-I' + INC, c] + extra + ['-o', gb], 'goto-cc', timeout=1800)
+        must(['goto-cc', '-D__CPROVER__'] + ['-D' + d for d in unit.cbmc_defines + unit.c_defines] + ['-I' + INC, c] + extra + ['-o', gb], 'goto-cc', timeout=1800)
         # --- native twins
         real = self.built.get(uname, {}).get('real') or self.build_native(uname)
         xlat = os.path.join(wd, 'xlat')
-        must(['clang-14', '-O1', '-w', '-I' + INC, c] + extra + [os.path.join(TOOLS, 'native_rt.c'), '-o', xlat, '-rdynamic', '-ldl', '-Wl,--unresolved-symbols=ignore-all', '-Wl,-z,lazy'], 'native xlat build', timeout=1800)
+        must(['clang-14', '-O1', '-w', '-I' + INC] + ['-D' + d for d in unit.c_defines] + [c] + extra + [os.path.join(TOOLS, 'native_rt.c'), '-o', xlat, '-rdynamic', '-ldl', '-Wl,--unresolved-symbols=ignore-all', '-Wl,-z,lazy'], 'native xlat build', timeout=1800)
         info['build_s'] = round(time.time() - t0, 1)
         self.built.setdefault(uname, {}).update(wd=wd, gb=gb, real=real, xlat=xlat, info=info)
         return info
